@@ -19,6 +19,7 @@ open Grip.C08 (Cond HasE lookup foundIn)
 inductive MOp where
   | eq (a : JV) | ne (a : JV) | gt (a : JV) | gte (a : JV) | lt (a : JV) | lte (a : JV)
   | in_ (a : JV)
+  | elemMatchEq (a : JV)      -- {"$elemMatch": {"$eq": a}}: an array field with an element equal to a
   | not (o : MOp)
   | empty                     -- bson.M{} left by the `default:` arm of convertCondition
   deriving Repr, Inhabited
@@ -46,16 +47,30 @@ def opOf (c : Cond) (a : JV) : MOp :=
   | .lte => .lte a
   | .within => .in_ a
   | .without => .not (.in_ a)
-  | .contains => .in_ (.arr [a])
+  | .contains => .elemMatchEq a
   | _ => .empty
 
-/-- convertCondition. -/
-def convCond (k : String) (c : Cond) (a : JV) (n : Bool) : MDoc :=
-  .field k (if n then .not (opOf c a) else opOf c a)
+def isArr : JV → Bool
+  | .arr _ => true
+  | _ => false
 
-/-- `output = bson.M{"$and": xs}; if not { output = bson.M{"$or": xs} }` and its dual. -/
+/-- convertCondition (after `fix: the mongo compiler emits no filter MongoDB rejects`): `$in` needs
+    an array, so `within` with any other value is `matchNone(not)` and `without` is
+    `matchNone(!not)` — what the core engine answers. -/
+def convCond (k : String) (c : Cond) (a : JV) (n : Bool) : MDoc :=
+  match c with
+  | .within => if isArr a then .field k (if n then .not (opOf c a) else opOf c a)
+               else if n then .all else .nothing
+  | .without => if isArr a then .field k (if n then .not (opOf c a) else opOf c a)
+                else if n then .nothing else .all
+  | _ => .field k (if n then .not (opOf c a) else opOf c a)
+
+/-- `$and` / `$or` of the converted members, swapped under a negation; an EMPTY member list is
+    `matchNone(!not)` for and() (holds for every element) and `matchNone(not)` for or() (holds for
+    none), because MongoDB rejects an empty `$and`/`$or` array (same fix). -/
 def junction (isAnd n : Bool) (xs : List MDoc) : MDoc :=
-  if isAnd != n then .and xs else .or xs
+  if xs.isEmpty then (if isAnd != n then .all else .nothing)
+  else if isAnd != n then .and xs else .or xs
 
 /-- INSIDE / OUTSIDE / BETWEEN (after `fix: the mongo compiler treats a range condition whose value is
     not a list of two bounds as matching nothing`): `rangeLimits` accepts exactly a two-element
@@ -139,6 +154,9 @@ def evalOp : MOp → JV → Option Bool
   | .in_ a, v => match a with
     | .arr xs => some (foundIn v xs)
     | _ => none
+  | .elemMatchEq a, v => match v with
+    | .arr xs => some (foundIn a xs)
+    | _ => some false
   | .not o, v => match o with
     | .empty => none
     | _ => (evalOp o v).map (!·)
@@ -181,10 +199,6 @@ def notNumText (numOf : String → Option Int) : JV → Bool
   | .str s => (numOf s).isNone
   | _ => true
 
-def isArr : JV → Bool
-  | .arr _ => true
-  | _ => false
-
 def isNumPair : JV → Bool
   | .arr [l, u] => isNumJ l && isNumJ u
   | _ => false
@@ -192,21 +206,23 @@ def isNumPair : JV → Bool
 /-- A leaf on which the emitted filter and the core evaluation are known to agree: the field value
     is scalar, ordering tests compare against numbers and the value is not numeric text (MongoDB
     brackets by type, the core engine casts text to numbers), list operators carry lists, range
-    operators carry exactly two numbers, `contains` does not hit a scalar equal to its argument. -/
+    operators carry exactly two numbers. (`within`/`without` with a non-list argument, `contains`
+    on a scalar equal to its argument, and()/or() without members were divergences until the two
+    `fix:` commits bd14ed8 and 0058dd1.) -/
 def leafAgree (numOf : String → Option Int) (v : JV) (c : Cond) (a : JV) : Bool :=
   isScalar v && match c with
   | .eq | .neq => true
   | .gt | .gte | .lt | .lte => isNumJ a && notNumText numOf v
   | .inside | .outside | .between => isNumPair a && notNumText numOf v
-  | .within | .without => isArr a
-  | .contains => !(v == a)
+  | .within | .without => true
+  | .contains => true
   | .unset => false
 
 mutual
   def agree (numOf : String → Option Int) (d : Elem) : HasE → Bool
     | .cond k c a => leafAgree numOf (lookup d k) c a
-    | .and es => !es.isEmpty && agreeList numOf d es
-    | .or es => !es.isEmpty && agreeList numOf d es
+    | .and es => agreeList numOf d es
+    | .or es => agreeList numOf d es
     | .not x => agree numOf d x
     | .none => false
   def agreeList (numOf : String → Option Int) (d : Elem) : List HasE → Bool
@@ -247,15 +263,15 @@ def leafWhy (numOf : String → Option Int) (v : JV) (c : Cond) (a : JV) : Optio
     match a with
     | .arr [l, u] => if isNumJ l && isNumJ u && notNumText numOf v then none else some "C14-order-cast"
     | _ => none   -- malformed bounds: both sides answer "no element" (range_args_malformed_agree)
-  | .within | .without => if isArr a then none else some "C14-invalid-filter"
-  | .contains => if v == a then some "C14-contains-scalar" else none
+  | .within | .without => none
+  | .contains => none
   | .unset => some "malformed"
 
 mutual
   def whys (numOf : String → Option Int) (d : Elem) : HasE → List String
     | .cond k c a => (leafWhy numOf (lookup d k) c a).toList
-    | .and es => (if es.isEmpty then ["C14-invalid-filter"] else []) ++ whysList numOf d es
-    | .or es => (if es.isEmpty then ["C14-invalid-filter"] else []) ++ whysList numOf d es
+    | .and es => whysList numOf d es
+    | .or es => whysList numOf d es
     | .not x => whys numOf d x
     | .none => ["malformed"]
   def whysList (numOf : String → Option Int) (d : Elem) : List HasE → List String
